@@ -5,6 +5,8 @@ import json, subprocess
 props=[json.loads(l) for l in open('/verif/properties.jsonl')]
 hooks_commits=subprocess.run(['git','-C','/repo','log','--format=%h','--reverse','--grep=^verif hooks'],capture_output=True,text=True).stdout.split()
 C={
+ "C10":("model_checking","exhaustive interleaving exploration (controlled scheduler; lock operations and, for FileSize/Backup, file-system calls as scheduling points) of all public-method pairs, Close triples, shared iterators, maintenance tasks and the background worker; panic/deadlock/handle-state-race/live-goroutine/use-after-Close oracles; complemented by a free-running Go race detector pass",
+        "data races on in-memory fields are visible only to the free-running race-detector complement (sampling, labelled); larger scenarios completed up to the reported preemption bound"),
  "C12":("model_checking","exhaustive interleaving exploration (controlled scheduler; scheduling points at every lock operation and every file-system call on segment files/directory) of Backup against 1-2 writer threads/Compact with log rollover; opened backup must equal a prefix state between call and return",
         "writer programs <= 2 ops (3 thorough); index/meta file calls are not scheduling points; larger scenarios are completed up to the reported preemption bound"),
  "C11":("model_checking","exhaustive interleaving exploration (controlled scheduler, all lock hand-offs) of a full scan against 1-2 writer threads incl. index splits and Compact + bounded exhaustive operation-sequence enumeration for the quiescent clauses; truthful/complete/exactly-once oracles",
